@@ -249,3 +249,9 @@ Qed.
 Lemma table_total keep reflen b s reads :
   total (table keep reflen b s reads) = spec_total keep reflen b s reads.
 Proof. unfold table. rewrite table_total_gen. cbn [total fold_right]. lia. Qed.
+
+Lemma split_double_bin_ok ds b : 0 < b -> split_double_bin ds b = Some (b * (ds / b), b * (ds / b) + b).
+Proof.
+  intros Hb. unfold split_double_bin. change t_coordinate_to_bins with bins_t.
+  rewrite (no_sliding bins_t bins_t_def) by assumption. reflexivity.
+Qed.
